@@ -12,6 +12,7 @@ Trees are in prefix notation: `#<rat>`, `n:<name>:<k>`, `~ e`, `+ - * / ^ a b`, 
 `p:<pseudofunction>:<k|_> e`, `$:<substitution>`; equations: `= lhs rhs` or `e expr`.
 -/
 import IrisVerif.Model.ModelLang
+import IrisVerif.Model.ModelLangTok
 import IrisVerif.Driver.Util
 
 open IrisVerif.ModelLang IrisVerif.Driver
@@ -356,6 +357,61 @@ def parseLWord (w : String) : Option LWord :=
     | _ => none
   else none
 
+/-! ### round 4: keyword normaliser, substitutions, token parser -/
+
+def parseSTok (w : String) : STok :=
+  if w.length ≥ 3 && w.startsWith "$" && w.endsWith "$" then .ref ((w.drop 1).dropEnd 1).toString else .word w
+
+def showSTok : STok → String
+  | .word w => w
+  | .ref s => "$" ++ s ++ "$"
+
+/-- `subs name=tok,tok ; name2=... | tok tok ...` -/
+def runSubs (ws : List String) : Option String := do
+  match splitSections ws "|" with
+  | [dws, ews] =>
+    let defs ← dws.mapM (fun w => match w.splitOn "=" with
+      | n :: rest => some (n, (("=".intercalate rest).splitOn ",").filter (· ≠ "") |>.map parseSTok)
+      | _ => none)
+    pure (" ".intercalate ("ok" :: (resolveSubstitutions defs (ews.map parseSTok)).map showSTok))
+  | _ => none
+
+def tok? (w : String) : Option Tok :=
+  if w = "(" then some .lp else if w = ")" then some .rp else if w = "," then some .comma else if w = "=" then some .eq
+  else if w.startsWith "#" then (parseRat? (w.drop 1).toString).map .num
+  else if w.startsWith "F:" then some (.fn (w.drop 2).toString)
+  else if w.startsWith "n:" then
+    match w.splitOn ":" with
+    | [_, n, k] => k.toInt?.map (fun k => .name n k)
+    | _ => none
+  else (binop? w).map .op
+
+def encExpr : Expr → String
+  | .num q => "#" ++ showRat q
+  | .name n k => "n:" ++ n ++ ":" ++ toString k
+  | .neg e => "~ " ++ encExpr e
+  | .bin o a b => (match o with | .add => "+" | .sub => "-" | .mul => "*" | .div => "/" | .pow => "^") ++ " " ++ encExpr a ++ " " ++ encExpr b
+  | .call1 f a => "f:" ++ f ++ " " ++ encExpr a
+  | .call2 f a b => "g:" ++ f ++ " " ++ encExpr a ++ " " ++ encExpr b
+
+/-- `parse <t> <tokens> | <data rows>` -> `ok <tree in prefix form> | <value of the translated equation>` -/
+def runParse (ws : List String) : Option String := do
+  match splitSections ws "|" with
+  | [t :: tws, xws] =>
+    let t ← t.toInt?
+    let toks ← tws.mapM tok?
+    let rows ← xws.mapM parseRow
+    match IrisVerif.ModelLang.parseEqn toks with
+    | none => pure "err:parse"
+    | some q =>
+      let enc := match q with
+        | .eq l r => "= " ++ encExpr l ++ " " ++ encExpr r
+        | .bare e => "e " ++ encExpr e
+      -- printing the parsed tree gives the tokens back
+      let again := if printEqn q = toks then "T" else "F"
+      pure ("ok " ++ enc ++ " | " ++ again ++ " | " ++ showVal rows t (some q.xtring))
+  | _ => none
+
 def step (line : String) : String :=
   match words line with
   | ["pf", n] => match PF.ofName? n with
@@ -369,6 +425,9 @@ def step (line : String) : String :=
   | "lists" :: rest => match rest.mapM parseLWord with
     | some ws => " ".intercalate ("ok" :: resolveLists ws)
     | none => "bad-op"
+  | "kwnorm" :: rest => " ".intercalate ("ok" :: (normaliseKeywords (rest.map String.toList)).map String.ofList)
+  | "subs" :: rest => (runSubs rest).getD "bad-op"
+  | "parse" :: rest => (runParse rest).getD "bad-op"
   | "prep" :: rest => (runPrep rest).getD "bad-op"
   | "model" :: rest => (runModel rest).getD "bad-op"
   | _ => "bad-op"
